@@ -70,14 +70,14 @@ type SimConn struct {
 	lastAlloc  uint64
 
 	// duplex mode (a real client goroutine on the other end, engine E2)
-	duplex    bool
-	c2s       []byte
-	c2sClosed bool
-	s2cRead   int
-	TapC2S    []byte
-	SSLAnswer byte
-	TLSUp     bool
-	Plain     []byte // what the TLS client decrypted
+	duplex       bool
+	c2s          []byte
+	c2sClosed    bool
+	s2cRead      int
+	TapC2S       []byte
+	SSLAnswer    byte
+	TLSUp        bool
+	Plain        []byte // what the TLS client decrypted
 	ClientEvents []Event
 }
 
